@@ -1,4 +1,4 @@
 SPECIFICATION TraceSpec
-CONSTANTS Upper <- V_Upper
+CONSTANTS Upper <- V_Upper  Proc <- V_Proc  Scheme <- V_Scheme  Dialer <- V_Dialer
 POSTCONDITION TraceAccepted
 CHECK_DEADLOCK FALSE
